@@ -1,9 +1,256 @@
-/- C08 driver: not written yet -/
+/-
+  C08 driver: replays what the real Serializer / Deserializer did (harness/serial.cpp output)
+  through the model of LibfiveModel/Serialize.lean:
+    * `Tree::walk` order of every (flattened) shape tree          -> `walk`
+    * bytes written by `Archive::serialize`                        -> `bytes`
+    * archive, cerr classes and exception of `Archive::deserialize` on the real bytes -> `load`
+    * hypotheses of the round-trip theorems on the real data       -> `hyp`
+  Output: one verdict line per observation: `ok …` / `MISMATCH …` / `skip …`.
+-/
 import Driver.Parse
+import LibfiveModel.Serialize
+open Libfive Libfive.Serial
 
 namespace Driver.C08
 
-def run (_args : List String) (lines : Array String) : Array String :=
-  #[s!"MISMATCH driver-not-implemented {lines.size}"]
+def hexVal (c : Char) : Nat := (F32.hexDigit c).getD 0
+
+def unhexBytes (s : String) : List UInt8 :=
+  if s == "-" then [] else
+  let rec go : List Char → List UInt8
+    | a :: b :: r => UInt8.ofNat (hexVal a * 16 + hexVal b) :: go r
+    | _ => []
+  go s.toList
+
+def hexDigitOf (d : Nat) : Char := if d < 10 then Char.ofNat (d + 48) else Char.ofNat (d - 10 + 97)
+
+def hexBytes (bs : List UInt8) : String :=
+  if bs.isEmpty then "-" else
+  String.ofList (bs.flatMap fun b => [hexDigitOf (b.toNat / 16), hexDigitOf (b.toNat % 16)])
+
+def hex32 (v : UInt32) : String :=
+  String.ofList ((List.range 8).map fun i => hexDigitOf ((v.toNat >>> (4 * (7 - i))) % 16))
+
+def u32! (s : String) : UInt32 := UInt32.ofNat ((F32.parseHex s).getD 0)
+
+/-- split a token list on ";" -/
+def segments (ws : List String) : List (List String) :=
+  let (segs, cur) := ws.foldl (fun (acc : List (List String) × List String) w =>
+    if w == ";" then (acc.2.reverse :: acc.1, []) else (acc.1, w :: acc.2)) ([], [])
+  (if cur.isEmpty then segs else cur.reverse :: segs).reverse
+
+def parseNode (seg : List String) : Node :=
+  match seg with
+  | _ :: "const" :: h :: _ => { op := .constant, value := u32! h }
+  | _ :: "var" :: _ => { op := .varFree }
+  | _ :: "un" :: op :: a :: _ => { op := (Op.ofPName? op).getD .invalid, lhs := nat! a }
+  | _ :: "bin" :: op :: a :: b :: _ => { op := (Op.ofPName? op).getD .invalid, lhs := nat! a, rhs := nat! b }
+  | _ :: k :: _ => { op := (Op.ofPName? k).getD .invalid }
+  | _ => { op := .invalid }
+
+def parseVars : Nat → List String → List (Nat × List UInt8)
+  | 0, _ => []
+  | k + 1, id :: h :: rest => (nat! id, unhexBytes h) :: parseVars k rest
+  | _, _ => []
+
+structure St where
+  case : String := ""
+  active : Bool := false
+  heap : Array Node := #[]
+  shapes : Array Shape := #[]
+  remap : Array Bool := #[]
+  walks : Array (List Nat) := #[]
+  haveSer : Bool := false
+  serlog : List String := []
+  serexc : String := "none"
+  bytes : List UInt8 := []
+  haveBytes : Bool := false
+  log : Option (List String) := none
+  exc : String := "none"
+  lheap : Option (List String) := none
+  lshapes : Array (List String) := #[]
+  crashed : Bool := false
+
+/-! ### constant folding for the run: exact opcodes through Float32, others are wildcards -/
+
+def wildcard : UInt32 := 0x7fc0f01d
+
+def folder : Folder where
+  f1 := fun op v =>
+    if F32.exactOp op && v != wildcard then (F32.ev op (Float32.ofBits v) 0).toBits else wildcard
+  f2 := fun op a b =>
+    if F32.exactOp op && a != wildcard && b != wildcard then
+      (F32.ev op (Float32.ofBits a) (Float32.ofBits b)).toBits
+    else wildcard
+
+def isNaNBits (v : UInt32) : Bool := (v.toNat / 8388608) % 256 == 255 && v.toNat % 8388608 != 0
+
+/-! ### DagDumper of harness/common.hpp on the model's heap -/
+
+structure Dump where
+  ids : List (Nat × Nat) := []
+  out : Array String := #[]
+  count : Nat := 0
+
+partial def visit (heap : List Node) (d : Dump) (n : Nat) : Dump × Nat :=
+  match d.ids.find? (·.1 == n) with
+  | some (_, i) => (d, i)
+  | none =>
+    let nd := hget heap n
+    let fresh (d : Dump) (ws : List String) : Dump × Nat :=
+      let id := d.count
+      ({ ids := (n, id) :: d.ids, out := d.out ++ (toString id :: ws ++ [";"]).toArray, count := id + 1 }, id)
+    if nd.op == Op.constant then
+      fresh d ["const", if nd.value == wildcard then "any" else if isNaNBits nd.value then "nan" else hex32 nd.value]
+    else if nd.op == Op.varFree then fresh d ["var", "-1"]
+    else match nd.op.args with
+      | some 1 =>
+        let (d, a) := visit heap d nd.lhs
+        fresh d ["un", nd.op.pname, toString a]
+      | some 2 =>
+        let (d, a) := visit heap d nd.lhs
+        let (d, b) := visit heap d nd.rhs
+        fresh d ["bin", nd.op.pname, toString a, toString b]
+      | _ => fresh d [nd.op.pname]
+
+def insertSorted (x : Nat × String) : List (Nat × String) → List (Nat × String)
+  | [] => [x]
+  | y :: r => if x.1 < y.1 then x :: y :: r else y :: insertSorted x r
+
+/-- the `lheap` / `lshape` lines the harness would print for this loaded archive -/
+def dumpLoaded (heap : List Node) (shapes : List LShape) : List String × List (List String) :=
+  let (d, roots) := shapes.foldl (fun (acc : Dump × List Nat) s =>
+    let (d, r) := visit heap acc.1 s.tree; (d, acc.2 ++ [r])) ({}, [])
+  let lheap := toString d.count :: d.out.toList
+  let lshapes := (shapes.zip roots).zipIdx.map fun ((s, r), i) =>
+    let known := s.vars.filterMap fun (v, nm) =>
+      (d.ids.find? (·.1 == v)).map fun p => (p.2, hexBytes nm)
+    let unreach := s.vars.length - known.length
+    let sorted := known.foldl (fun acc x => insertSorted x acc) []
+    [toString i, "root", toString r, "name", hexBytes s.name, "doc", hexBytes s.doc,
+     "unreach", toString unreach, "vars", toString sorted.length] ++
+      sorted.flatMap fun (i, h) => [toString i, h]
+  (lheap, lshapes)
+
+/-- word-wise comparison: model word `any` matches everything; NaN constants match each other -/
+def wordsMatch : List String → List String → Bool
+  | [], [] => true
+  | "const" :: m :: ms, "const" :: r :: rs =>
+    (m == "any" || m == r || (m == "nan" && isNaNBits (u32! r))) && wordsMatch ms rs
+  | m :: ms, r :: rs => m == r && wordsMatch ms rs
+  | _, _ => false
+
+def errName : Err → String
+  | .eof => "eof" | .tag => "tag" | .opLow => "opLow" | .opHigh => "opHigh" | .strEof => "strEof"
+  | .strOpen => "strOpen" | .varIdx => "varIdx" | .varDup => "varDup" | .oracle => "oracle"
+
+def isPrefix : List String → List String → Bool
+  | [], _ => true
+  | a :: as, b :: bs => a == b && isPrefix as bs
+  | _, [] => false
+
+def finish (st : St) : List String :=
+  if !st.active then [] else
+  let tag := s!"case {st.case}"
+  if st.crashed && !st.haveBytes then [s!"skip crashed-before-bytes {tag}"] else
+  if st.heap.size > 1500 then [s!"skip big {tag} nodes {st.heap.size}"] else
+  let heapFn : NodeId → Node := fun i => st.heap.getD i { op := .invalid }
+  let fuel := st.heap.size + 2
+  let out : List String := []
+  -- walk + bytes (archive cases only)
+  let out := if !st.haveSer then out else
+    let out := out ++ (st.walks.toList.zipIdx.map fun (real, i) =>
+      let root := (st.shapes.getD i default).tree
+      let model := walk heapFn fuel root
+      if model == real then s!"ok walk {tag} shape {i}" else
+        s!"MISMATCH walk {tag} shape {i} model= {model} real= {real}")
+    let anyRemap := st.remap.any id
+    let rm := if anyRemap then " remap" else ""
+    let out := out ++ [match serialize heapFn fuel st.shapes.toList with
+      | .ok b =>
+        if st.serexc != "none" then s!"MISMATCH bytes {tag}{rm} model=ok real-exception={st.serexc}"
+        else if b == st.bytes then s!"ok bytes {tag}{rm}"
+        else s!"MISMATCH bytes {tag}{rm} model= {hexBytes b} real= {hexBytes st.bytes}"
+      | .error e =>
+        if e == SErr.outOfRange && st.serexc == "out_of_range" then s!"ok bytes {tag}{rm} both-throw"
+        else s!"MISMATCH bytes {tag}{rm} model-error real= {hexBytes st.bytes}"]
+    -- messages of the serializer: one `varMissing` per named variable that is not in the tree
+    -- (looked up in the id table as it is when that shape is written)
+    let missing := (st.shapes.toList.foldl (fun (acc : List NodeId × Nat) s =>
+      match serShape heapFn fuel acc.1 s with
+      | .ok (_, ids) => (ids, acc.2 + (s.vars.filter fun v => (posOf ids v.1).isNone).length)
+      | .error _ => acc) ([], 0)).2
+    let out := out ++ [if anyRemap then s!"skip serlog {tag} remap"
+      else if st.serlog.length == missing then s!"ok serlog {tag}"
+      else s!"MISMATCH serlog {tag} model= {missing} real= {st.serlog}"]
+    -- hypotheses of archive_roundtrip on the real data
+    let bare := st.shapes.toList.map fun s => { s with vars := [] }
+    let axesAll := axesUnique heapFn (List.range st.heap.size)
+    let out := out ++ [s!"hyp {tag}{rm} canon {archiveCanon heapFn fuel st.shapes.toList && axesAll} canonTrees {archiveCanon heapFn fuel bare && axesAll} novars {st.shapes.all fun s => s.vars.isEmpty}"]
+    out
+  -- load: model deserializer on the real bytes
+  let out := out ++ (match st.log with
+    | none => [s!"skip load {tag} no-log-line"]
+    | some rlog =>
+      match deserialize folder st.bytes with
+      | .ok (shapes, dst) =>
+        let mlog := dst.log.map errName
+        if st.crashed then [s!"MISMATCH load {tag} model=ok real=crashed"]
+        else if st.exc != "none" then [s!"MISMATCH load {tag} model=ok real-exception={st.exc}"]
+        else
+          let (lheap, lshapes) := dumpLoaded dst.heap shapes
+          let okHeap := match st.lheap with | some r => wordsMatch lheap r | none => false
+          let okShapes := lshapes.length == st.lshapes.size &&
+            (lshapes.zip st.lshapes.toList).all fun (m, r) => wordsMatch m r
+          let okLog := mlog == rlog
+          -- a constant folded through an inexact kernel decides later rewrites (x + 0, x * 1 ...):
+          -- structure is then not determined by the model; only messages and shape count are compared
+          let inexact := dst.heap.any fun n => n.op == Op.constant && n.value == wildcard
+          if inexact then
+            (if okLog && lshapes.length == st.lshapes.size then [s!"skip load {tag} inexact-fold log-ok {mlog.length}"]
+             else [s!"MISMATCH load {tag} inexact-fold log model= {mlog} real= {rlog}"])
+          else if okHeap && okShapes && okLog then [s!"ok load {tag} shapes {shapes.length} nodes {lheap.headD "0"} log {mlog.length}"]
+          else [s!"MISMATCH load {tag} heap {okHeap} shapes {okShapes} log {okLog} model= {lheap} {lshapes} {mlog} real= {st.lheap} {st.lshapes.toList} {rlog}"]
+      | .error (Stop.outOfRange, mlogE) =>
+        let mlog := mlogE.map errName
+        if st.exc == "out_of_range" && mlog == rlog then [s!"ok load {tag} both-throw log {mlog.length}"]
+        else [s!"MISMATCH load {tag} model=out_of_range {mlog} real= exc {st.exc} crashed {st.crashed} {rlog}"]
+      | .error (Stop.indeterminate, mlogE) =>
+        let mlog := mlogE.map errName
+        -- the C++ continues on an uninitialised object: only what was said before is determined
+        if isPrefix mlog rlog then [s!"skip load {tag} indeterminate log-prefix-ok {mlog.length}"]
+        else [s!"MISMATCH load {tag} indeterminate log-prefix model= {mlog} real= {rlog}"]
+      | .error (Stop.fuel, _) => [s!"MISMATCH load {tag} model-out-of-fuel"])
+  out
+
+def handle (st : St) (line : String) : St × List String :=
+  let ws := words line
+  match ws with
+  | "case" :: k :: _ => ({ case := k, active := true }, [])
+  | "heap" :: _ :: rest => ({ st with heap := ((segments rest).map parseNode).toArray }, [])
+  | "shape" :: _ :: "root" :: r :: "remap" :: rm :: "name" :: n :: "doc" :: d :: "vars" :: k :: rest =>
+    ({ st with shapes := st.shapes.push { tree := nat! r, name := unhexBytes n, doc := unhexBytes d,
+                                          vars := parseVars (nat! k) rest },
+               remap := st.remap.push (rm == "1") }, [])
+  | "walk" :: _ :: _ :: rest => ({ st with walks := st.walks.push (rest.map nat!) }, [])
+  | "serlog" :: _ :: rest => ({ st with serlog := rest, haveSer := true }, [])
+  | "serexc" :: e :: _ => ({ st with serexc := e }, [])
+  | "bytes" :: h :: _ => ({ st with bytes := unhexBytes h, haveBytes := true }, [])
+  | "log" :: _ :: rest => ({ st with log := some rest }, [])
+  | "exc" :: e :: _ => ({ st with exc := e }, [])
+  | "lheap" :: rest => ({ st with lheap := some rest }, [])
+  | "lshape" :: rest => ({ st with lshapes := st.lshapes.push rest }, [])
+  | "crash" :: _ => ({ st with crashed := true }, [])
+  | "end" :: _ => ({}, finish st)
+  | _ => (st, [])
+
+def run (_args : List String) (lines : Array String) : Array String := Id.run do
+  let mut st : St := {}
+  let mut out : Array String := #[]
+  for l in lines do
+    let (st', vs) := handle st l
+    st := st'
+    out := out ++ vs.toArray
+  return out
 
 end Driver.C08
